@@ -51,6 +51,7 @@
 -/
 import Lumina.Proofs.SyncerLoop
 import Lumina.Proofs.SyncerFair
+import Lumina.Proofs.ComposeSyncerPruneC35
 import Lumina.Gen.C38
 
 namespace Lumina.Props.C38
@@ -457,5 +458,324 @@ example : ∀ i, ∃ k, i ≤ k ∧ Synced exEnv (trace exEnv { batchSize := 1 }
     exEvs ex_admissible ex_below ex_fair
 
 example : (trace exEnv { batchSize := 1 } exEvs 8).store.stored 4 = false := by decide
+
+/-! ## C38 × C35 × C25 (strengthening S7): convergence with pruner removals interleaved
+
+  The convergence theorems above are restricted to runs in which NOTHING IS PRUNED and the pruning
+  cutoff is older than every header (`hP`, `Aux.unpruned`, `Aux.slow`).  Below the runs get a
+  second kind of event, `EvP.prune h` = `Store::remove_height(h)` issued by the pruner
+  (`stepP`, `traceP`; lemmas in `Proofs/ComposeSyncerGate.lean`, `ComposeSyncerPrune.lean`,
+  `ComposeSyncerPruneC35.lean`).  A removal is admissible when it satisfies the per-height safety
+  condition C35 proves of every height of every pruner batch (`PruneSafe`;
+  `pruner_batches_are_admissible_removals` is the bridge from `Props.C35.batch_safe`).
+
+  REGIME of the convergence result: `hwin` — a header outside the pruning window is outside the
+  sampling window (pruning window ≥ sampling window; the defaults are 7 d + 1 h and 7 d;
+  `regime_from_cutoffs`).  `hP` is GONE: headers do leave the pruning window, the slow-sync height
+  arms, heights are pruned.  In that regime safe removals never remove a height the window needs
+  (`safe_removals_never_touch_the_sampling_window`), so the conclusion is about STORED heights, as
+  before.  NOT covered (stated, not proved): pruning window < sampling window (e.g. the in-memory
+  default 0) — there sampled in-window heights are removed and the slow-sync throttle hands
+  progress to the daser / pruner, which this model does not contain; for that regime only the
+  regime-free facts hold: the potential over SYNCED = stored ∪ pruned heights never increases and a
+  removal leaves it unchanged (`removal_leaves_variant_unchanged`,
+  `variant_never_increases_with_pruning`), `PrunedHist` is invariant, and the window gate incl. the
+  C25 branch withholds nothing the window needs (`repaired_window_gate_costs_no_liveness`). -/
+
+open Lumina.Proofs.ComposeSyncerPrune
+
+/-- `traceP` is `runP` on the first `k` events, and without removals it is the `trace` above -/
+theorem traceP_is_runP (e : Env) (s0 : State) (evs : Nat → EvP) (k : Nat) :
+    traceP e s0 evs k = runP e s0 ((List.range k).map evs) :=
+  traceP_eq_runP e s0 evs k
+
+theorem traceP_without_removals_is_trace (e : Env) (s0 : State) (evs : Nat → Ev) :
+    ∀ k, traceP e s0 (fun i => .ev (evs i)) k = trace e s0 evs k
+  | 0 => rfl
+  | k + 1 => by
+    show (step e (traceP e s0 (fun i => .ev (evs i)) k) (evs k)).1 = (step e (trace e s0 evs k) (evs k)).1
+    rw [traceP_without_removals_is_trace e s0 evs k]
+
+/-- **Bridge from C35.**  Every height of every batch `get_next_prunable_batch` returns (C35's
+    model, any well-formed store view, any cache that is right, any `Daser` oracle) is an
+    admissible removal of the composed runs, when the pruner's view and the syncer model's store
+    describe the same store and cutoffs. -/
+theorem pruner_batches_are_admissible_removals (limit : Nat) (ps : Lumina.Model.Pruner.PStore)
+    (w : Lumina.Model.Pruner.Worker) (sc pc : Nat) (refresh : Bool) (grant : Nat → Bool)
+    (hs : Lumina.Proofs.Pruner.StoreInv ps) (hm : Lumina.Proofs.Pruner.ChainMono ps.time)
+    (hc : Lumina.Proofs.Pruner.CacheOK ps.time w.cache sc pc) (batch : Lumina.Model.Ranges.Ranges)
+    (w' : Lumina.Model.Pruner.Worker) (msgs : List Lumina.Model.Pruner.Msg)
+    (hres : Lumina.Model.Pruner.getNextPrunableBatch limit ps w sc pc refresh grant = .ok (batch, w', msgs))
+    (e : Env) (a : AbsStore) (hsame : SameStore ps sc pc e a) (h : Nat) (hmem : mem batch h) :
+    PruneSafe e a h :=
+  pruner_batch_height_is_prune_safe limit ps w sc pc refresh grant hs hm hc batch w' msgs hres e a hsame h hmem
+
+/-- the regime hypotheses below, from the cutoffs: pruning cutoff ≤ sampling cutoff (pruning window
+    ≥ sampling window) and header times increasing with the height -/
+theorem regime_from_cutoffs (ps : Lumina.Model.Pruner.PStore) (sc pc : Nat) (e : Env) (a : AbsStore)
+    (hsame : SameStore ps sc pc e a) (hm : Lumina.Proofs.Pruner.ChainMono ps.time)
+    (h0 : ps.time 0 ≤ ps.time 1) (hcut : pc ≤ sc) :
+    (∀ h, e.chain.oldP h = true → e.chain.oldS h = true) ∧
+    (∀ h1 h2, h1 ≤ h2 → e.chain.oldS h2 = true → e.chain.oldS h1 = true) :=
+  regime_of_cutoffs ps sc pc e a hsame hm h0 hcut
+
+/-- **Safe removals never remove a height the window needs** (pruning window ≥ sampling window):
+    a safely removable height is outside the sampling window, and every stored height inside the
+    window is still stored after ANY admissible event of the composed system. -/
+theorem safe_removals_never_touch_the_sampling_window (v : Hdr → Hdr → Bool) (c : Nat → Hdr) (e : Env)
+    (hwin : ∀ h, e.chain.oldP h = true → e.chain.oldS h = true) (s : State) :
+    (∀ h, PruneSafe e s.store h → e.chain.oldS h = true) ∧
+    (∀ ev, EvOkP v c e s ev → ∀ k, s.store.stored k = true → e.chain.oldS k = false →
+      (stepP e s ev).store.stored k = true) :=
+  ⟨fun _ hp => pruneSafe_outside_window hwin hp,
+   fun _ hok _ hk hkw => stepP_keeps_window_heights hwin hok hk hkw⟩
+
+/-- **A safe removal stays safe** while the syncer inserts and the pruner removes other heights:
+    batch computation on a snapshot + one-by-one removal interleaved with the syncer stays inside
+    the admissible removals (C35 left this interleaving to an informal argument). -/
+theorem removal_stays_safe_under_interleaving (e : Env) (s : State) (ev : EvP) (h : Nat)
+    (hne : ev ≠ .prune h) (hp : PruneSafe e s.store h) : PruneSafe e (stepP e s ev).store h :=
+  pruneSafe_stable e s ev h hne hp
+
+/-- **A removal leaves the variant unchanged** — `PhiP M s` = number of heights of `[1, M]` that are
+    not SYNCED (neither stored nor pruned: the set `calculate_range_to_fetch` works on) + staleness
+    of the outstanding request.  No assumption at all. -/
+theorem removal_leaves_variant_unchanged (e : Env) (M : Nat) (s : State) (h : Nat) :
+    PhiP M (stepP e s (.prune h)) = PhiP M s :=
+  PhiP_prune e M s h
+
+/-- **The variant never increases, whatever the event, with pruned heights around** (either window
+    order; `AuxP` = `Aux` without "nothing pruned" and "slow-sync not armed"). -/
+theorem variant_never_increases_with_pruning (v : Hdr → Hdr → Bool) (c : Nat → Hdr) (e : Env)
+    (M : Nat) (s : State) (hi : Inv c s) (ha : AuxP M s) (ev : EvP)
+    (hok : match ev with | .ev x => EvOk v c s x | .prune _ => True) :
+    PhiP M (stepP e s ev) ≤ PhiP M s := by
+  cases ev with
+  | ev x => exact step_phiP_le hi ha hok
+  | prune h => exact Nat.le_of_eq (PhiP_prune e M s h)
+
+/-- **Every honest answer strictly decreases the variant, with pruned heights around.** -/
+theorem honest_answer_strictly_decreases_variant_with_pruning (v : Hdr → Hdr → Bool) (c : Nat → Hdr)
+    (hc : HonestChain v c) (e : Env) (hev : e.verify = v) (M : Nat) (hM : M < U64_MAX) (s : State)
+    (hi : Inv c s) (ha : AuxP M s) (hph : s.phase = .connected) (r : Lumina.Model.Ranges.Range)
+    (hon : s.ongoing = some r) :
+    PhiP M (stepP e s (.ev (.batch (some (span c r.1 (r.2 + 1 - r.1)))))) < PhiP M s :=
+  honest_answer_phiP_lt hc hev
+    (by have : Lumina.Model.Store.U64_MAX = U64_MAX := rfl
+        omega) hi ha hph hon
+
+/-- `PrunedHist` (every pruned height is outside the sampling window or has a synced height
+    directly below it) holds along every run of syncer events and safe removals — either window
+    order, no fairness -/
+theorem pruned_history_invariant (v : Hdr → Hdr → Bool) (c : Nat → Hdr) (e : Env) (s0 : State)
+    (h0 : PrunedHist e s0.store) (evs : Nat → EvP)
+    (hok : ∀ k, EvOkP v c e (traceP e s0 evs k) (evs k)) : ∀ k, PrunedHist e (traceP e s0 evs k).store
+  | 0 => h0
+  | k + 1 => stepP_prunedHist (pruned_history_invariant v c e s0 h0 evs hok k) (hok k)
+
+/-- **The C25 fix costs no liveness** (either window order).  In every state whose pruned heights
+    satisfy `PrunedHist`, if `fetch_next_batch` returns without a request because of the
+    sampling-window gate — the height above the next batch is stored and outside the window, or
+    (the branch added by the C25 fix) it is a synced height that has since been pruned — then every
+    height `1 ≤ m ≤ head` that is not synced lies outside the sampling window: the gate never
+    blocks a batch that contains a height of the window. -/
+theorem repaired_window_gate_costs_no_liveness (e : Env)
+    (hmono : ∀ h1 h2, h1 ≤ h2 → e.chain.oldS h2 = true → e.chain.oldS h1 = true)
+    (s : State) (hi : Lumina.Proofs.Store.AbsInv s.store) (hph : PrunedHist e s.store)
+    (w : Lumina.Model.SyncerGate.Idle) (hw : w = .boundOutsideWindow ∨ w = .boundPruned)
+    (hdec : Lumina.Model.SyncerGate.fetchDecision e.slowMin (gateIn e s) = .ok (.idle w))
+    (H m : Nat) (hH : s.head = some H) (hm1 : 1 ≤ m) (hm2 : m ≤ H) (hm3 : syncedB s.store m = false) :
+    e.chain.oldS m = true :=
+  window_gate_costs_no_liveness hmono hi hph hw hdec hH hm1 hm2 hm3
+
+/-- **Progress with pruned heights and an armed slow-sync height** (pruning window ≥ sampling
+    window).  In a state satisfying the invariants `G3` (safety invariant; some stored header, every
+    pruned height and the slow-sync height on the right side of the window edge; bounds), a
+    connected worker without an ongoing batch whose window up to the head is not fully stored
+    schedules a request: neither the slow-sync throttle nor the repaired window gate withholds it. -/
+theorem convergence_progress_with_pruning_partial (c : Nat → Hdr) (e : Env)
+    (hmono : ∀ h1 h2, h1 ≤ h2 → e.chain.oldS h2 = true → e.chain.oldS h1 = true)
+    (M : Nat) (hM : M < U64_MAX) (s : State) (hg : G3 c e M s)
+    (hph : s.phase = .connected) (hon : s.ongoing = none) (H : Nat) (hH : s.head = some H)
+    (hnf : ¬ WindowFull e s.store H) : ∃ r, (fetchNextBatch e s).2 = some r :=
+  not_full_requestsP hmono hM hg hph hon hH hnf
+
+/-- the invariants are not assumed along the run: they hold initially (empty store, batch size ≥ 1)
+    and every admissible event — the syncer's or a safe removal — preserves them -/
+theorem side_conditions_hold_along_every_run_with_pruning (v : Hdr → Hdr → Bool) (c : Nat → Hdr)
+    (hd : LinkDown v c) (hu : LinkUp v c) (e : Env) (hev : e.verify = v)
+    (hwin : ∀ h, e.chain.oldP h = true → e.chain.oldS h = true)
+    (hmono : ∀ h1 h2, h1 ≤ h2 → e.chain.oldS h2 = true → e.chain.oldS h1 = true)
+    (M : Nat) (hM : M < U64_MAX) (bs : Nat) (hbs : 1 ≤ bs) (evs : Nat → EvP)
+    (hok : ∀ k, EvOkP v c e (traceP e { batchSize := bs } evs k) (evs k))
+    (hbl : ∀ k, EvBelowP M (evs k)) (k : Nat) : GoodP c e M (traceP e { batchSize := bs } evs k) :=
+  traceP_good hwin hmono hd hu hev hM (good_initP c e M bs hbs) hok hbl k
+
+/-- "honest peers eventually answer", for runs with removals (same wording as `FairHonestAnswers`) -/
+def FairHonestAnswersP (c : Nat → Hdr) (e : Env) (s0 : State) (evs : Nat → EvP) : Prop :=
+  ∀ i, ¬ Synced e (traceP e s0 evs i) → ∃ j, i ≤ j ∧ HonestAnswerAtP c (traceP e s0 evs j) (evs j)
+
+/-- **C38 convergence under fairness, WITH PRUNING.**
+
+    For EVERY infinite sequence of events — the syncer's events of `converges_under_fairness_partial`
+    (peer-count changes, network heads, header-sub announcements, failed requests, ANY answers the
+    p2p layer accepts) and, interleaved ARBITRARILY, removals `prune h` by the pruner — that is
+    admissible (`EvOkP`) and fair (`FairHonestAnswersP`): from every point of the run there is a
+    later point at which every height of the sampling window up to the subjective head is STORED.
+
+    Hypotheses, spelled out:
+      * `EvOkP`: syncer events as in `EvOk` (announced heads honest, batches passed the p2p layer);
+        the network head handed over by trusted peers is inside the sampling window (`HeadFresh`:
+        it is seconds old); every removal satisfies C35's per-height condition `PruneSafe` — what
+        `Props.C35.batch_safe` proves of every pruner batch (`pruner_batches_are_admissible_removals`);
+      * `hwin` (REGIME): outside the pruning window ⇒ outside the sampling window, i.e. pruning
+        window ≥ sampling window (defaults 7 d + 1 h / 7 d); `hmono`: header age monotone in the
+        height; both time classes fixed during the run (as everywhere in C38);
+      * `FairHonestAnswersP`, `hbl` (heads ≤ `M`), `HonestChain` / `LinkDown` / `LinkUp`: as before.
+    NOT assumed any more: `hP` (pruning cutoff older than every header), nothing pruned, slow-sync
+    not armed.  Proof: the invariants `GoodP` hold along the run; `PhiP` (over synced heights)
+    never increases, is unchanged by removals and strictly decreases at each fair moment; a
+    connected worker whose window is not full has an outstanding request (`BusyW`), because neither
+    the slow-sync throttle nor the repaired window gate withholds a batch the window needs.
+
+    Still `_partial`: the opposite window order (pruning window < sampling window) is not covered;
+    the environment assumptions of `converges_under_fairness_partial` remain. -/
+theorem converges_under_fairness_with_pruning_partial (v : Hdr → Hdr → Bool) (c : Nat → Hdr)
+    (hc : HonestChain v c) (hd : LinkDown v c) (hu : LinkUp v c) (e : Env) (hev : e.verify = v)
+    (hwin : ∀ h, e.chain.oldP h = true → e.chain.oldS h = true)
+    (hmono : ∀ h1 h2, h1 ≤ h2 → e.chain.oldS h2 = true → e.chain.oldS h1 = true)
+    (M : Nat) (hM : M < U64_MAX) (bs : Nat) (hbs : 1 ≤ bs) (evs : Nat → EvP)
+    (hok : ∀ k, EvOkP v c e (traceP e { batchSize := bs } evs k) (evs k))
+    (hbl : ∀ k, EvBelowP M (evs k))
+    (hfair : FairHonestAnswersP c e { batchSize := bs } evs) :
+    ∀ i, ∃ k, i ≤ k ∧ Synced e (traceP e { batchSize := bs } evs k) :=
+  fair_convergesP hwin hmono hc hd hu hev hM (good_initP c e M bs hbs) hok hbl hfair
+
+/-- the same from any state satisfying the invariants, for the head the worker knew at an arbitrary
+    point `i`: every height of the sampling window up to THAT head is stored from some point on,
+    FOR EVER — later safe removals never take it away again -/
+theorem every_known_head_is_reached_with_pruning_partial (v : Hdr → Hdr → Bool) (c : Nat → Hdr)
+    (hc : HonestChain v c) (hd : LinkDown v c) (hu : LinkUp v c) (e : Env) (hev : e.verify = v)
+    (hwin : ∀ h, e.chain.oldP h = true → e.chain.oldS h = true)
+    (hmono : ∀ h1 h2, h1 ≤ h2 → e.chain.oldS h2 = true → e.chain.oldS h1 = true)
+    (M : Nat) (hM : M < U64_MAX) (s0 : State) (hg0 : GoodP c e M s0) (evs : Nat → EvP)
+    (hok : ∀ k, EvOkP v c e (traceP e s0 evs k) (evs k)) (hbl : ∀ k, EvBelowP M (evs k))
+    (hfair : FairHonestAnswersP c e s0 evs) (i H : Nat) (hH : (traceP e s0 evs i).head = some H) :
+    ∃ k, i ≤ k ∧ ∀ k', k ≤ k' → WindowFull e (traceP e s0 evs k').store H :=
+  fair_converges_to_headP hwin hmono hc hd hu hev hM hg0 hok hbl hfair i H hH
+
+/-! non-vacuity: a concrete infinite fair run WITH A PRUNER REMOVAL while a request is outstanding,
+    in which the slow-sync height arms and the C25 branch of the window gate fires -/
+
+/-- headers of heights ≤ 3 are outside the sampling window, those ≤ 2 outside the pruning window -/
+def exEnvP : Env :=
+  { verify := exVerify, chain := { oldS := fun h => decide (h ≤ 3), oldP := fun h => decide (h ≤ 2) },
+    slowMin := 50 }
+
+def exEvsP : Nat → EvP
+  | 0 => .ev (.peers 1)
+  | 1 => .ev (.netHead (exChain 6))                  -- connected; 4..5 requested (batch size 2)
+  | 2 => .ev (.batch (some (span exChain 4 2)))      -- honest answer; 2..3 requested (bound 4 is in the window)
+  | 3 => .ev (.batch (some (span exChain 2 2)))      -- honest answer; 2 is outside the pruning window: slow-sync arms
+  | 4 => .ev (.headerSub (exChain 8))                -- new head 8 (not adjacent to 6): 7..8 requested
+  | 5 => .prune 2                                    -- the pruner removes height 2 while 7..8 is outstanding
+  | 6 => .ev (.batch (some (span exChain 7 2)))      -- honest answer: 3..8 stored, 2 pruned; C25 gate: nothing below
+  | _ => .ev (.peers 1)
+
+theorem exP_regime :
+    (∀ h, exEnvP.chain.oldP h = true → exEnvP.chain.oldS h = true) ∧
+    (∀ h1 h2, h1 ≤ h2 → exEnvP.chain.oldS h2 = true → exEnvP.chain.oldS h1 = true) := by
+  constructor
+  · intro h hp; simp [exEnvP] at hp ⊢; omega
+  · intro h1 h2 hle hp; simp [exEnvP] at hp ⊢; omega
+
+/-- the run: what is stored / pruned / outstanding before events 5, 6 and 7 — the removal happens
+    while the window 4..8 is not full and a request is outstanding; afterwards the decision is
+    "nothing" because of the branch added by the C25 fix -/
+theorem exP_states :
+    (traceP exEnvP { batchSize := 2 } exEvsP 4).slowSync = some 2 ∧
+    (traceP exEnvP { batchSize := 2 } exEvsP 5).store.storedRanges = [(2, 6)] ∧
+    (traceP exEnvP { batchSize := 2 } exEvsP 5).ongoing = some (7, 8) ∧
+    (traceP exEnvP { batchSize := 2 } exEvsP 6).store.storedRanges = [(3, 6)] ∧
+    (traceP exEnvP { batchSize := 2 } exEvsP 6).store.prunedRanges = [(2, 2)] ∧
+    (traceP exEnvP { batchSize := 2 } exEvsP 7).store.storedRanges = [(3, 8)] ∧
+    Lumina.Model.SyncerGate.fetchDecision 50 (gateIn exEnvP (traceP exEnvP { batchSize := 2 } exEvsP 7))
+      = .ok (.idle .boundPruned) :=
+  ⟨by decide, by decide, by decide, by decide, by decide, by decide, by rfl⟩
+
+theorem exP_ongoing :
+    (traceP exEnvP { batchSize := 2 } exEvsP 2).ongoing = some (4, 5) ∧
+    (traceP exEnvP { batchSize := 2 } exEvsP 2).phase = .connected ∧
+    (traceP exEnvP { batchSize := 2 } exEvsP 3).ongoing = some (2, 3) ∧
+    (traceP exEnvP { batchSize := 2 } exEvsP 3).phase = .connected ∧
+    (traceP exEnvP { batchSize := 2 } exEvsP 6).ongoing = some (7, 8) ∧
+    (traceP exEnvP { batchSize := 2 } exEvsP 6).phase = .connected := by decide
+
+theorem exP_span_wf (lo n : Nat) (h : lo + n ≤ 1000) : ∀ x ∈ span exChain lo n, HdrWf x := by
+  intro x hx
+  simp only [span, List.mem_map, List.mem_range'_1] at hx
+  obtain ⟨y, hy, rfl⟩ := hx
+  simp only [HdrWf, exChain, Lumina.Model.Store.U64_MAX]
+  omega
+
+/-- every event of the example run is admissible (the removal satisfies C35's condition) … -/
+theorem exP_admissible : ∀ k, EvOkP exVerify exChain exEnvP (traceP exEnvP { batchSize := 2 } exEvsP k) (exEvsP k)
+  | 0 => ⟨trivial, trivial⟩
+  | 1 => ⟨⟨⟨rfl, rfl⟩, by simp [HdrWf, exChain, Lumina.Model.Store.U64_MAX]⟩,
+          (by decide : exEnvP.chain.oldS (exChain 6).height = false)⟩
+  | 2 => ⟨⟨fun r hr => by rw [exP_ongoing.1] at hr; injection hr with hr; subst hr; decide,
+          exP_span_wf 4 2 (by decide)⟩, trivial⟩
+  | 3 => ⟨⟨fun r hr => by rw [exP_ongoing.2.2.1] at hr; injection hr with hr; subst hr; decide,
+          exP_span_wf 2 2 (by decide)⟩, trivial⟩
+  | 4 => ⟨⟨⟨rfl, rfl⟩, by simp [HdrWf, exChain, Lumina.Model.Store.U64_MAX]⟩, trivial⟩
+  | 5 => ⟨by decide, by decide, Or.inl (by decide)⟩
+  | 6 => ⟨⟨fun r hr => by rw [exP_ongoing.2.2.2.2.1] at hr; injection hr with hr; subst hr; decide,
+          exP_span_wf 7 2 (by decide)⟩, trivial⟩
+  | _ + 7 => ⟨trivial, trivial⟩
+
+theorem exP_below : ∀ k, EvBelowP 8 (exEvsP k)
+  | 0 => trivial
+  | 1 => by show 6 ≤ 8; omega
+  | 2 => trivial
+  | 3 => trivial
+  | 4 => Nat.le_refl _
+  | 5 => trivial
+  | 6 => trivial
+  | _ + 7 => trivial
+
+theorem exP_synced_tail : ∀ n, Synced exEnvP (traceP exEnvP { batchSize := 2 } exEvsP (n + 7))
+  | 0 => ⟨8, by decide, fun m _ h2 h3 =>
+      (by decide : ∀ m < 9, exEnvP.chain.oldS m = false →
+        (traceP exEnvP { batchSize := 2 } exEvsP 7).store.stored m = true) m (by omega) h3⟩
+  | n + 1 => by
+    show Synced exEnvP (step exEnvP (traceP exEnvP { batchSize := 2 } exEvsP (n + 7)) (.peers 1)).1
+    exact synced_peers exEnvP _ 1 (exP_synced_tail n)
+
+/-- … and it is fair: the honest answers are events 2, 3 and 6 -/
+theorem exP_fair : FairHonestAnswersP exChain exEnvP { batchSize := 2 } exEvsP := by
+  intro i hns
+  by_cases h2 : i ≤ 2
+  · exact ⟨2, h2, exP_ongoing.2.1, fun r hr => by
+      rw [exP_ongoing.1] at hr; injection hr with hr; subst hr; rfl⟩
+  · by_cases h3 : i ≤ 3
+    · exact ⟨3, h3, exP_ongoing.2.2.2.1, fun r hr => by
+        rw [exP_ongoing.2.2.1] at hr; injection hr with hr; subst hr; rfl⟩
+    · by_cases h6 : i ≤ 6
+      · exact ⟨6, h6, exP_ongoing.2.2.2.2.2, fun r hr => by
+          rw [exP_ongoing.2.2.2.2.1] at hr; injection hr with hr; subst hr; rfl⟩
+      · exfalso
+        obtain ⟨n, rfl⟩ : ∃ n, i = n + 7 := ⟨i - 7, by omega⟩
+        exact hns (exP_synced_tail n)
+
+/-- so the theorem applies to a run that contains a pruner removal -/
+example : ∀ i, ∃ k, i ≤ k ∧ Synced exEnvP (traceP exEnvP { batchSize := 2 } exEvsP k) :=
+  converges_under_fairness_with_pruning_partial exVerify exChain ex_honest_chain ex_link_down ex_link_up
+    exEnvP rfl exP_regime.1 exP_regime.2 8 (by decide) 2 (by decide) exEvsP exP_admissible exP_below exP_fair
+
+/-- the removal is real, and the window is NOT full when it happens (7 and 8 are missing) -/
+example : (traceP exEnvP { batchSize := 2 } exEvsP 5).store.stored 2 = true ∧
+    (traceP exEnvP { batchSize := 2 } exEvsP 6).store.stored 2 = false ∧
+    (traceP exEnvP { batchSize := 2 } exEvsP 6).head = some 8 ∧
+    (traceP exEnvP { batchSize := 2 } exEvsP 6).store.stored 7 = false := by decide
 
 end Lumina.Props.C38
